@@ -140,6 +140,7 @@ type hist struct {
 	checks     int
 	closed     bool
 	transients int
+	maxOut     int // most messages found in one outbox
 }
 
 var galeneTexts = map[string]bool{
@@ -173,6 +174,7 @@ func (h *hist) close() {
 		return
 	}
 	h.closed = true
+	h.t.Checked("C14.cleanup")
 	if err := h.w.Close(); err != nil {
 		h.t.Fail("C14", "cleanup", err.Error())
 	}
@@ -401,6 +403,9 @@ func (h *hist) project(m sigdrv.Msg) string {
 // to the client-side fold and its monitors, and returns the messages.
 func (h *hist) take(c *cl) []sigdrv.Msg {
 	ms := c.c.Out()
+	if len(ms) > h.maxOut {
+		h.maxOut = len(ms)
+	}
 	for _, m := range ms {
 		if p := h.project(m); p != "" {
 			c.buf = append(c.buf, p)
